@@ -759,6 +759,14 @@ pub fn work_list(cfg: &RunCfg) -> WorkList {
     for w in corpus::start_anchor_shapes("(?=)").iter() {
         fixed.push(Item::new(w, "start-anchor-shapes"));
     }
+    for w in corpus::bounded_repeats().iter() {
+        fixed.push(Item::new(w, "bounded-repeats"));
+    }
+    for w in corpus::many_groups().iter() {
+        let mut it = Item::new(w, "many-groups");
+        it.n_extra = 0;
+        fixed.push(it);
+    }
     if cfg.prop == "C01" || cfg.prop == "C02" {
         for w in corpus::ingredient_sweep(false).iter() {
             let mut it = Item::new(w, "ingredient-sweep");
